@@ -229,6 +229,130 @@ def check_slot_cover(prog: Program, res: Result) -> None:
                             instance=inst)
 
 
+
+MERGED_SLOTS = ("_atom_attrs", "_bond_attrs", "_atom_stereo", "_bond_stereo",
+                "_atom_stereo_change", "_bond_stereo_change")
+
+
+def check_compose_order(prog: Program, res: Result) -> None:
+    res.rule("R-COMPOSE-ORDER", "where composed graphs overlap the later "
+             "graph wins: every table of the result is filled by stores / "
+             "update() calls inside a forward loop over the graphs (or a "
+             "comprehension in that order); ChainMap, setdefault, `if key "
+             "not in` guards and reversed iteration let the first graph win")
+    seen = set()
+    n = 0
+    for K in GRAPH_CLASSES:
+        for fi in chain_of(prog, K, "compose"):
+            if fi.qual in seen:
+                continue
+            seen.add(fi.qual)
+            params = fi.params()
+            gparam = params[1] if len(params) > 1 else None
+            # locals that hold the graphs in the caller's order
+            fwd = {gparam}
+            rev = set()
+            chain_locals = set()
+            for a in ast.walk(fi.node):
+                if isinstance(a, ast.Assign) and len(a.targets) == 1 and \
+                        isinstance(a.targets[0], ast.Name):
+                    v = a.value
+                    t = a.targets[0].id
+                    vt = norm(v, 300)
+                    if isinstance(v, ast.Call) and call_name(v) in (
+                            "list", "tuple") and v.args and \
+                            norm(v.args[0]) in fwd:
+                        fwd.add(t)
+                    elif isinstance(v, (ast.ListComp, ast.GeneratorExp)) and \
+                            len(v.generators) == 1 and norm(
+                            v.generators[0].iter) in fwd:
+                        fwd.add(t)
+                    elif "reversed(" in vt or "[::-1]" in vt:
+                        rev.add(t)
+                    if "ChainMap(" in vt:
+                        chain_locals.add(t)
+            for node in ast.walk(fi.node):
+                slot = None
+                kind = None
+                if isinstance(node, ast.Assign) and len(node.targets) == 1 \
+                        and isinstance(node.targets[0], ast.Subscript) and \
+                        isinstance(node.targets[0].value, ast.Attribute) and \
+                        node.targets[0].value.attr in MERGED_SLOTS:
+                    slot, kind = node.targets[0].value.attr, "store"
+                elif isinstance(node, ast.Call) and isinstance(
+                        node.func, ast.Attribute) and node.func.attr in (
+                        "update", "setdefault") and isinstance(
+                        node.func.value, ast.Attribute) and \
+                        node.func.value.attr in MERGED_SLOTS:
+                    slot, kind = node.func.value.attr, node.func.attr
+                if slot is None:
+                    continue
+                n += 1
+                inst = f"{fi.short}: {norm(node, 80)}"
+                loops = [a for a in ancestors(node)
+                         if isinstance(a, (ast.For, ast.comprehension))]
+                loops += [g for a in ancestors(node)
+                          if isinstance(a, (ast.ListComp, ast.DictComp,
+                                            ast.SetComp, ast.GeneratorExp))
+                          for g in a.generators]
+                iters = [norm(l.iter, 200) for l in loops]
+                # each of these lets the first visited graph win; visiting
+                # the graphs in reverse turns that round once more
+                flips = []
+                if kind == "setdefault":
+                    flips.append("setdefault keeps the entry that is "
+                                 "already there")
+                guard = [a for a in ancestors(node)
+                         if isinstance(a, ast.If) and " not in " in norm(
+                             a.test) and slot in norm(a.test)]
+                if guard:
+                    flips.append(f"`{norm(guard[0].test, 60)}` keeps the "
+                                 "entry that is already there")
+                argt = norm(node.args[0], 300) if (
+                    kind == "update" and node.args) else ""
+                names = {x.id for x in ast.walk(node)
+                         if isinstance(x, ast.Name)}
+                chain_src = argt
+                for a in ast.walk(fi.node):
+                    if isinstance(a, ast.Assign) and len(a.targets) == 1 and \
+                            isinstance(a.targets[0], ast.Name) and \
+                            a.targets[0].id in (names & chain_locals):
+                        chain_src += " " + norm(a.value, 300)
+                if "ChainMap(" in chain_src:
+                    flips.append("a ChainMap looks a key up in its first "
+                                 "mapping first")
+                reversed_ = any("reversed(" in i or "[::-1]" in i or i in rev
+                                for i in iters) or "reversed(" in chain_src \
+                    or "[::-1]" in chain_src
+                if reversed_:
+                    flips.append("the graphs are visited in reverse order")
+                why = "; ".join(flips) if len(flips) % 2 == 1 else None
+                if not why and flips:
+                    res.ok("R-COMPOSE-ORDER", inst, fi.loc(node),
+                           "first-wins construct over reversed graphs")
+                    continue
+                if why:
+                    res.bad("R-COMPOSE-ORDER", inst, fi.loc(node),
+                            f"{fi.short}: `{norm(node, 80)}`: {why}; the "
+                            "property lets the later graph win where atoms "
+                            "or bonds overlap")
+                    continue
+                if any(i in fwd for i in iters) or (
+                        kind == "update" and not loops and False):
+                    res.ok("R-COMPOSE-ORDER", inst, fi.loc(node))
+                elif kind == "update" and node.args and isinstance(
+                        node.args[0], (ast.DictComp,)) and any(
+                        norm(g.iter) in fwd
+                        for g in node.args[0].generators[:1]):
+                    res.ok("R-COMPOSE-ORDER", inst, fi.loc(node))
+                else:
+                    res.unrecognised("R-COMPOSE-ORDER", inst, fi.loc(node),
+                                     "the order in which the graphs "
+                                     "contribute to this store is not "
+                                     "recognised")
+    res.need("R-COMPOSE-ORDER", n, 6, "table stores in the compose chains")
+
+
 def check_compose_merge(prog: Program, res: Result) -> None:
     res.rule("R-COMPOSE-MERGE", "compose merges the neighbour set of an atom "
              "with what earlier graphs contributed (in-place update / union "
@@ -655,4 +779,5 @@ def run(prog: Program, res: Result, tier: str) -> None:
     check_slot_cover(prog, res)
     check_induced(prog, res)
     check_compose_merge(prog, res)
+    check_compose_order(prog, res)
     check_components(prog, res)
